@@ -140,7 +140,7 @@ class AtomsEngine(Engine):
     name = 'session_atoms'
     max_ops = 50
     expected_probes = ['inplace_overwrite_other_dtype', 'alias_candidate_used', 'refused_raised', 'scribble_result',
-                       'scribble_safecopy', 'setitem_overlap', 'extend_new_props_both_sides', 'natypes_grew', 'readonly_reassign_refused', 'noncontiguous_input', 'atype_lt1_scalar_forms', 'default_constructed_object', 'types_renumbered_through_prop_atype', 'scaled_access_by_a_id', 'symbol_as_numpy_string', 'integer_typed_positions',
+                       'scribble_safecopy', 'setitem_overlap', 'extend_new_props_both_sides', 'natypes_grew', 'readonly_reassign_refused', 'noncontiguous_input', 'atype_lt1_scalar_forms', 'default_constructed_object', 'types_renumbered_through_prop_atype', 'scaled_access_by_a_id', 'symbol_as_numpy_string', 'integer_typed_positions', 'atoms_df_scale_list', 'assigned_a_view_of_itself',
                        'negative_index', 'mask_index', 'scaled_write', 'prop_atype_single_new_key', 'df_checked',
                        'box_set_with_possible_sharers', 'box_alias_candidate_used']
     rule = ('Each run keeps a pool of up to 6 live Atoms/System objects (parent/child links recorded) and applies up to '
@@ -343,7 +343,11 @@ class AtomsEngine(Engine):
         if k == 'deepcopy':
             return {'op': 'deepcopy', 'o': slot}
         if k == 'df':
-            return {'op': 'df', 'o': slot, 'scale': r.random() < 0.3}
+            op = {'op': 'df', 'o': slot, 'scale': r.random() < 0.3}
+            vec = [nm for nm, (c2, t2) in m.reg.items() if c2 == 'float' and tuple(t2) == (3,)]
+            if m.kind == 'system' and len(vec) >= 2 and r.random() < 0.5:
+                op['scale_list'] = r.sample(vec, r.randint(2, len(vec)))     # several properties, in the caller's order
+            return op
         if k == 'sys':
             return self._gen_sys(ctx, st, slot)
         return self._gen_fault(ctx, st, slot)
@@ -375,6 +379,10 @@ class AtomsEngine(Engine):
         if ts == ():
             forms.append('scalar')
         form = r.choice(forms)
+        if key in m.reg and key != 'atype' and m.n >= 2 and r.random() < 0.12:
+            # the property re-ordered through a view of itself: atoms.charge = atoms.charge[::-1]
+            return {'op': 'set_whole', 'o': slot, 'key': key, 'form': 'selfview', 'value': None, 'via': r.choice(['attr', 'view']),
+                    'as_array': True, 'as_float': False, 'junk': 0}
         if form == 'scalar':
             val = self._val(ctx, cls, ts, key)
         elif form == 'len1':
@@ -751,6 +759,22 @@ class AtomsEngine(Engine):
             return {'skip': 1}
         cls, ts = m.reg[key] if key in m.reg else st['reg'][key]
         form, val = op['form'], op['value']
+        if form == 'selfview':
+            if key not in m.reg or m.n < 2:
+                return {'skip': 1}
+            old = [m.rows[i][key] for i in range(m.n)]
+            given = m.atoms.view[key][::-1]
+            via = op['via']
+            if via == 'attr':
+                ctx.must('C06.X', setattr, m.atoms, key, given, klass='set/attr/selfview/existing')
+            else:
+                ctx.must('C06.X', m.atoms.view.__setitem__, key, given, klass='set/view/selfview/existing')
+            for i in range(m.n):
+                v = old[m.n - 1 - i]
+                self._write(st, m, key, i, v.copy() if isinstance(v, np.ndarray) else v)
+            ctx.probe('assigned_a_view_of_itself')
+            ctx.ev('op', 'set_whole', {'o': op['o'], 'key': key, 'form': form, 'via': via})
+            return {'changed': True, 'cls': cls, 'rank': len(ts), 'ik': form, 'via': via, 'aliased': bool(m.links)}
         if form == 'full' and len(val) != m.n:
             return {'skip': 1}
         new_key = key not in m.reg
@@ -1131,7 +1155,13 @@ class AtomsEngine(Engine):
     def _ap_df(self, ctx, st, op):
         m = st['pool'][op['o']]
         scale = bool(op.get('scale')) and m.kind == 'system'
-        if m.kind == 'system':
+        slist = [nm for nm in (op.get('scale_list') or []) if nm in m.reg and m.reg[nm] == ('float', (3,))] if m.kind == 'system' else []
+        if m.kind == 'system' and len(slist) >= 2:
+            df = ctx.must('C06.A3', m.real.atoms_df, scale=list(slist), klass='atoms_df/list')
+            scale = False
+            ctx.probe('atoms_df_scale_list')
+        elif m.kind == 'system':
+            slist = []
             df = ctx.must('C06.A3', m.real.atoms_df, scale=scale, klass='atoms_df')
         else:
             df = ctx.must('C06.A3', m.atoms.df, klass='df')
@@ -1145,14 +1175,26 @@ class AtomsEngine(Engine):
                     raise Violation('C06.A3', {'what': 'df column missing', 'col': col}, klass='df/columns')
                 if scale and nm == 'pos':
                     continue
+                if nm in slist:
+                    continue
                 got = df[col].values
                 for i in range(m.n):
                     w = m.rows[i][nm]
                     w = w[ix] if ts else w
                     if not veq(got[i], w, cls) and not any(veq(got[i], (c[ix] if ts else c), cls) for c in m.cands.get((nm, i), [])):
                         raise Violation('C06.A3', {'what': 'df value', 'col': col, 'row': i, 'got': got[i], 'want': w}, klass='df/value')
+        size = float(np.abs(m.V).max()) + float(np.abs(m.o).max()) if m.kind == 'system' else 1.0
+        for nm in slist:
+            relv = np.array([df[nm + '[%d]' % i].values for i in range(3)], dtype=float).T
+            back = geom.rel_to_cart(m.V, m.o, relv)
+            for i in range(m.n):
+                okv = any(np.all(np.abs(back[i] - np.asarray(c, dtype=float)) <= 1e-9 * size + 1e-9 * np.abs(np.asarray(c, dtype=float)))
+                          for c in [m.rows[i][nm]] + m.cands.get((nm, i), []))
+                if not okv:
+                    raise Violation('C06.A3', {'what': 'box-relative columns of atoms_df do not map back to the stored values', 'property': nm,
+                                               'row': i, 'got_rel': relv[i], 'want_cart': m.rows[i][nm], 'scale_list': slist}, klass='df/scaled')
         ctx.probe('df_checked')
-        ctx.ev('op', 'df', {'o': op['o'], 'scale': scale})
+        ctx.ev('op', 'df', {'o': op['o'], 'scale': scale, 'scale_list': slist})
         return {}
 
     # -- system level
